@@ -348,7 +348,11 @@ pub struct Case {
     pair_cbs: Vec<String>,
 }
 
-const LONG: Duration = Duration::from_secs(30);
+const LONG_DEFAULT_MS: u64 = 30_000;
+/// how long an actor may take to reach its next scheduling point (VERIF_LONG_MS overrides, for tests of the harness itself)
+fn long() -> Duration {
+    Duration::from_millis(std::env::var("VERIF_LONG_MS").ok().and_then(|s| s.parse().ok()).unwrap_or(LONG_DEFAULT_MS))
+}
 const WAITLIKE: Duration = Duration::from_millis(3);
 const OFFER: Duration = Duration::from_millis(25);
 
@@ -409,7 +413,7 @@ impl Case {
         };
         let ck = Arc::new(ck);
         // both workers park at their loop heads
-        if sched.wait_arrival(PROC, 0, LONG) == Arrival::Blocked || sched.wait_arrival(POL, 0, LONG) == Arrival::Blocked {
+        if sched.wait_arrival(PROC, 0, long()) == Arrival::Blocked || sched.wait_arrival(POL, 0, long()) == Arrival::Blocked {
             return Err("workers did not reach their loop heads".into());
         }
         let mut jobs = Vec::new();
@@ -576,7 +580,7 @@ impl Case {
         let (timeout, kind) = match from {
             Some(p) if is_waitlike(p, self.cfg.is_async) => (WAITLIKE, 1),
             Some(p) if is_offer(p, self.cfg.is_async) => (OFFER, 2),
-            _ => (LONG, 0),
+            _ => (long(), 0),
         };
         let arr = self.sched.wait_arrival(a as Actor, seen, timeout);
         match (&arr, kind) {
@@ -665,7 +669,7 @@ impl Case {
 
     pub fn step_proc(&mut self, t: &mut Trace) {
         let seen = self.sched.grant(PROC);
-        let mut arr = self.sched.wait_arrival(PROC, seen, LONG);
+        let mut arr = self.sched.wait_arrival(PROC, seen, long());
         let notes = self.sched.take_notes();
         let mut arm = "-";
         let mut tick_key = "-".to_string();
@@ -722,7 +726,7 @@ impl Case {
 
     pub fn step_worker(&mut self, t: &mut Trace) {
         let seen = self.sched.grant(POL);
-        let mut arr = self.sched.wait_arrival(POL, seen, LONG);
+        let mut arr = self.sched.wait_arrival(POL, seen, long());
         let notes = self.sched.take_notes();
         let mut arm = "-";
         for (_, name, _) in &notes {
@@ -813,6 +817,18 @@ impl Case {
                 break;
             }
         }
+    }
+
+    /// gives up on this attempt of the case: every thread runs free, nothing more is recorded
+    pub fn abandon(mut self) {
+        self.mon.discard();
+        self.sched.set_controlled(false);
+        let ck = self.ck.clone();
+        std::thread::spawn(move || {
+            let _ = do_op(&ck, &Op::Close);
+        });
+        std::thread::sleep(Duration::from_millis(20));
+        drop(self.jobs);
     }
 
     /// finish the case: quiesce, report clients that never came back, stop the workers
